@@ -457,6 +457,9 @@ def run_property(pid, tier, seed):
         ctx = Ctx(prep, pid, seed, tier)
         # ---- correspondence
         streams = mod.streams(rng, tier)
+        if hasattr(mod, "streams_ctx"):
+            # streams whose op lines carry answers of the real library (geometry supplied by the C side)
+            streams = streams + mod.streams_ctx(ctx, rng, tier)
         corpus = load_corpus(pid)
         if corpus:
             streams = [("corpus", corpus)] + streams
